@@ -2,12 +2,50 @@ import os, sys
 sys.path.insert(0, os.path.dirname(os.path.abspath(__file__)))
 from _util import *
 
+
+def _nontrivial(recs):
+    """a swarm in which the antecedent holds: a seeder served, at least two agents stayed and finished through
+    verified piece writes (End present+ok), i.e. pieces really travelled between real schedulers"""
+    ends = [r for r in recs if r.get("ev") == "End" and r.get("present")]
+    return len(ends) >= 2 and sum(1 for r in recs if r.get("ev") == "WEnd" and r.get("res") == "ok") >= 2 \
+        and any(r.get("ev") == "Serve" and r.get("p") == "s1" for r in recs)
+
+
 PROP = dict(
     specdir="p2p", engine="c19",
     mc=[dict(module="SwarmMC", cfg="MC_Swarm.cfg"),
-        dict(module="SwarmMC", cfg="MC_Swarm_live.cfg", coverage=False)],
+        dict(module="SwarmMC", cfg="MC_Swarm_live.cfg", coverage=False),
+        dict(module="SwarmMC", cfg="MC_Swarm_thorough.cfg", tiers=("thorough",), timeout=1500),
+        dict(module="SwarmMC", cfg="MC_Swarm_conn2.cfg", tiers=("thorough",), coverage=False, timeout=1500),
+        dict(module="SwarmMC", cfg="MC_Swarm_live_thorough.cfg", tiers=("thorough",), coverage=False, timeout=1500),
+        dict(module="SwarmMC", cfg="MC_Swarm_live_nox.cfg", tiers=("thorough",), coverage=False, timeout=1500)],
     trace=dict(module="SwarmTrace", cfg="SwarmTrace.cfg"),
-    nontrivial=lambda recs: has(recs, "End") and any(r.get("ev") == "WEnd" and r.get("res") == "ok" for r in recs),
-    rule="x",
-    assumptions=[],
+    engine_timeout={"quick": 400, "thorough": 1200},
+    replay_attempts=3,
+    nontrivial=_nontrivial,
+    rule="one trace = one REAL in-process swarm over localhost TCP: 2-5 leeching agent schedulers (real clock, real event loop, real "
+         "announce client against trackerserver.Fixture) + 1 seeder pre-populated through its torrent archive, random blob 0-64 KiB, "
+         "piece length 1-16 KiB, MaxOpenConnectionsPerTorrent 1-4 per peer, pipeline limit 1-3, random join order and delays; every "
+         "third swarm has a CORRUPTING peer (scheduler whose TorrentArchive is decorated to report the torrent complete and to serve "
+         "a random non-empty set of pieces with a flipped byte), every third an agent that is stopped mid-transfer, every sixth both; "
+         "recorded with a global ticket: the networkevent stream of every peer, every storage WritePiece (start/end, payload compared "
+         "with the true piece in Go) and GetPieceReader, Download call/return, final End oracle per agent (Download result, cache file "
+         "equals blob); non-trivial = at least two agents stayed and finished, pieces were written after verification and the seeder served",
+    assumptions=["liveness on the real code is OBSERVED within a time bound (every Download of a present agent returned within 120 s), "
+                 "not proved; a swarm that does not finish in time makes the check inconclusive (exit 2), never a violation",
+                 "design-level liveness (TLC, Converges under FairSpec) assumes weak fairness of protocol steps and strong fairness of "
+                 "Open(agent, seeder) (= the seeder stays reachable); with a corrupting peer it is proved for agents limited to ONE "
+                 "connection: with two connections TLC exhibits a fair cycle in which, in endgame, the good payload loses the write "
+                 "race against the wrong payload of the same piece forever (write conflict is treated as an invalid payload) - the "
+                 "real code leaves that cycle only by timing",
+                 "request_piece / blacklist records are produced after their effect and are therefore only type-checked on traces "
+                 "(pipeline limits and connection bookkeeping of one scheduler are C15 / C16); the requester of a served piece and the "
+                 "sender of a written payload are matched by piece index and good/bad flag",
+                 "announce: a complete peer (seeder, corrupter) is registered with the tracker by the harness right after its Download "
+                 "returned (the same announce its own ticker would send 5 s later); ConnTTI 1 s, blacklist 1.5 s, preemption tick "
+                 "250 ms, tracker announce interval 250 ms"],
+    level_note="Liveness on the real code is observed within a time bound (120 s per swarm), not proved; design-level liveness is proved "
+               "by TLC on the Swarm model under the stated fairness assumptions. Trusted: TLC/SANY + CommunityModules Json, the Go "
+               "driver, its decorating TorrentArchive/Torrent (oracle 'payload equals true piece' computed with bytes.Equal) and the "
+               "global-ticket ordering of records taken at the storage and networkevent.Producer boundaries.",
 )
